@@ -74,9 +74,10 @@ for it in range(R.n(60, 1500)):
     drift = rng.uniform(-2, 2) * df / dt
     pform, tform, bform = rng.choice('cas'), rng.choice('cas'), rng.choice('ncas')
     pfun = lambda t: f0 + drift * t + 0.1 * df * np.sin(t)
-    tfun = lambda t: 1.0 + 0.5 * np.cos(0.7 * t)
+    sgn = rng.choice([1.0, 1.0, -1.0])          # signals may be negative (dips, cancellations)
+    tfun = lambda t: sgn * (0.4 + 0.9 * np.cos(0.7 * t))
     path = pfun if pform == 'c' else ([pfun(i * dt) for i in range(T + (1 if smear else 0))] if pform == 'a' else f0)
-    tp = tfun if tform == 'c' else (np.array([tfun(i * dt) for i in range(T)]) if tform == 'a' else 1.7)
+    tp = tfun if tform == 'c' else (np.array([tfun(i * dt) for i in range(T)]) if tform == 'a' else 1.7 * sgn)
     w = rng.uniform(0.5, 4) * df
     fp = lambda f, fc: np.exp(-((f - fc) / w) ** 2)
     bfun = lambda f: 1.0 + 0.01 * (f - fr.fmin) / df
